@@ -10,7 +10,7 @@ source /verif/bin/env.sh
 for S in "${IDS[@]}"; do
   D=/verif/benign/$S; WT=$WORK/wt-$S
   git -C /repo worktree prune; git -C /repo worktree add --detach $WT HEAD >/dev/null 2>&1 || { echo "$S worktree failed"; continue; }
-  if ! git -C $WT apply $D/patch.diff 2>/dev/null; then echo "$S PATCH DOES NOT APPLY" | tee $D/matrix.txt; git -C /repo worktree remove --force $WT; continue; fi
+  if ! git -C $WT apply $( [ -f $D/patch.rebased.diff ] && echo $D/patch.rebased.diff || echo $D/patch.diff ) 2>/dev/null; then echo "$S PATCH DOES NOT APPLY" | tee $D/matrix.txt; git -C /repo worktree remove --force $WT; continue; fi
   SUITE=$(cd $WT && (go build ./... && (cd simapp && go build ./...) && go test -vet=off -count=1 ./... ) 2>&1 | grep -c '^FAIL')
   echo "suite_fail_lines $SUITE" > $D/matrix.txt
   for PR in $PROPS; do
